@@ -333,7 +333,35 @@ func runC10(c *Ctx) {
 						continue
 					}
 					n++
-					c.RequireGate("C10.T2-commit-only-on-success", fn, g, commits, "call tx.Commit")
+					// after THIS call, Commit is reachable only across its success edge (or across
+					// `errors.Is(its error, …)`: an error the function explicitly tolerates). Starting
+					// at the call — not at entry — keeps a step inside a loop from being "bypassed" by
+					// the zero-iteration path.
+					pe, _ := g.PassEdges(fn)
+					tol := GBool("errors.Is(err, tolerated)==true", func(cc *ssa.CallCommon) bool {
+						o := CalleeObj(cc)
+						return o != nil && o.Pkg() != nil && o.Pkg().Path() == "errors" && o.Name() == "Is" && len(cc.Args) == 2 &&
+							valueIsResultOf(cc.Args[0], func(c2 *ssa.CallCommon) bool { return c2 == &call.Call })
+					}, 0, true)
+					te, _ := tol.PassEdges(fn)
+					removed := map[Edge]bool{}
+					for e := range pe {
+						removed[e] = true
+					}
+					for e := range te {
+						removed[e] = true
+					}
+					for e := range ErrorExitEdges(fn) {
+						removed[e] = true
+					}
+					rc := Reach(fn, ReachOpts{From: call, Removed: removed, Cut: func(in ssa.Instruction) bool { return in == ssa.Instruction(call) }})
+					badc := ""
+					for _, cm := range commits {
+						if rc.Reachable(cm) {
+							badc = "after " + instrShort(call) + " failed, tx.Commit at " + p.Pos(InstrPos(cm)) + " is still reachable (witness " + rc.Path(p, cm) + "): a partial batch would be committed"
+						}
+					}
+					c.Check(badc == "", "C10.T2-commit-only-on-success", FuncName(fn)+"|"+g.Name+"|call tx.Commit", p.Pos(InstrPos(call)), orDefault(badc, "after this step tx.Commit is reachable only across its success edge"))
 				}
 				// the commit's error is returned
 				for _, cm := range commits {
